@@ -12,6 +12,7 @@ CONSTANTS
   T = 2
   MaxTime = 0
   EarlyCancel = FALSE
+  NoTimeouts = FALSE
   Mode = "script"
   SymBreak = TRUE
   Dev_OpnTimeoutWedge = FALSE
